@@ -498,6 +498,57 @@ mod c12 {
         });
     }
 
+    fn group_tx_refuses<'a, C: Crypto>(
+        _this: &'a mut Sessions,
+        _crypto: C,
+        _fabrics: &Fabrics,
+        _fab_idx: NonZeroU8,
+        _group_id: u16,
+        _dev_det: &BasicInfoConfig<'_>,
+    ) -> Result<&'a mut Session, Error> {
+        Err(ErrorCode::NotFound.into())
+    }
+
+    /// No group session can be had (unknown group, no key, table full): `initiate_group` fails
+    /// before anything is stored, so it must not have moved the in-memory boundary either - the
+    /// next reservation hands out the resumed value `d` and again demands the store. (A reservation
+    /// taken before the session lookup would leave the boundary an epoch ahead of the durable one and
+    /// a whole epoch of values would go out uncovered.)
+    // TIER: quick
+    // KIND: complete (every resumed boundary; the session lookup refuses by contract)
+    #[kani::proof]
+    #[kani::unwind(8)]
+    #[kani::stub(Sessions::get_or_create_for_group_tx, group_tx_refuses)]
+    #[kani::stub(embassy_time::Instant::now, fake_now)]
+    fn c12_initiate_group_refused_keeps_boundary_durable() {
+        let matter = Matter::new(&TEST_DEV_DET, TEST_DEV_COMM, &TEST_DEV_ATT, 0);
+        let d: u32 = kani::any();
+        kani::assume(d >= 1 && d <= RANGE);
+        matter.with_state(|state| state.sessions.resume_global_group_data_ctr(d));
+        let crypto = MockCrypto::new(true, true, kani::any());
+        let kv = RecKv {
+            fail: kani::any(),
+            stores: Cell::new(0),
+            key: Cell::new(0),
+            data: Cell::new([0; 4]),
+            len: Cell::new(0),
+        };
+
+        let r = Exchange::initiate_group(&matter, &crypto, &kv, NonZeroU8::new(1).unwrap(), kani::any());
+
+        kani::assert(r.is_err(), "C12.group.initiate_without_session_fails");
+        kani::assert(kv.stores.get() == 0, "C12.group.initiate_without_session_stores_nothing");
+        let next = matter.with_state(|state| state.sessions.reserve_global_group_data_ctr(&crypto));
+        match next {
+            Ok((v, b)) => {
+                kani::assert(v == d, "C12.group.refused_initiate_consumes_no_value");
+                kani::assert(b.is_some(), "C12.group.refused_initiate_leaves_boundary_equal_durable");
+            }
+            Err(_) => kani::assert(false, "C12.group.reserve_after_resume_succeeds"),
+        }
+        kani::cover!(next.is_ok(), "reservation after the refused initiate");
+    }
+
     /// Store-before-use with a working store: on `Ok` the boundary one epoch ahead was written
     /// under the right key exactly once, the value stashed for the message is the stored-at
     /// boundary `d` itself and lies strictly below what is durable now.
